@@ -8,7 +8,7 @@ Decided:
          _dispatch_wsgi with the same two arguments.  => "exactly once, before any body bytes, no body for
          HEAD" is delegated to werkzeug's BaseResponse.__call__ (assumption), and a RerouteWSGI target
          receives the request's own environ object;
-  R13.b  wrapper order: Application.__init__ wraps self._dispatch_wsgi in reversed(all_mws) order (first
+  R13.b  wrapper order: Application.__init__ wraps self._dispatch_wsgi over the *reverse* of all_mws (first
          middleware outermost); _get_all_middlewares walks each bound route's middlewares in order and
          de-duplicates with ``not in`` keeping the first occurrence; set_error_handler wraps before the
          middleware loop (innermost); _safe_wrap_wsgi returns the inner callable untouched when there is no
@@ -17,11 +17,20 @@ Decided:
          passed to file_wrapper(...) and stored as resp.response on the success path;
          StaticFileRoute.__init__'s probe open(...) is closed in the same statement.
 Declined: validity of status lines / header types, close() semantics, byte-ness of bodies (inside werkzeug).
+
+The constructs are recognised by role, not by spelling: a callee / an iterable / an argument that is a local with a
+single assignment is looked through; the reversal may be ``reversed(x)`` or ``x[::-1]``; the de-duplicating walk may be
+two nested loops, one loop over ``chain.from_iterable(...)`` / a flattening comprehension, with the membership test as
+an ``if`` around the append or as a ``continue`` guard; a wrapping loop extracted into a method of the class is followed
+from its call in ``__init__``.
 """
 import ast
+import copy
 
 from ..core import AnalysisError, norm, short
 from .. import effects
+from ..astutil import assigned_value, argn
+from ..cfg import expand_conds
 from .common import (cfg_of, fkey, conds, has_cond, stmts_of, walk_body, call_tail, call_name, returns_of, raises_of,
                      raise_type, stmt_of, kwarg, local_aliases)
 from .noninterf import CORE_MODS
@@ -29,43 +38,229 @@ from .noninterf import CORE_MODS
 APP, STATIC = 'clastic.application', 'clastic.static'
 
 
-def run(rep):
-    repo = rep.repo
-    app = repo.mod(APP)
-    st = repo.mod(STATIC)
-    rep.decide('R13.a exactly one WSGI delegate per path with untouched (environ, start_response); R13.b wrapper order; '
-               'R13.c opened files handed to the response')
-    rep.decline('status-line / header validity, close() semantics, bytes-ness of bodies: inside werkzeug')
-    rep.assume('werkzeug BaseResponse.__call__ calls start_response exactly once before yielding body bytes and omits the body for HEAD')
-    rep.rule('R13.a', 'CFG: every path of _dispatch_wsgi ends in one delegate call with the original parameters')
-    rep.rule('R13.b', 'sequence order of WSGI wrapping')
-    rep.rule('R13.c', 'open / hand-over pairing')
+def _group(rep, fn, *args):
+    """One group of rules: "cannot analyse" (also a shape that trips the rule's own code) is a gap of this group, never
+    a crash and never a verdict; the other groups still run."""
+    def wrapped():
+        try:
+            return fn(*args)
+        except AnalysisError:
+            raise
+        except Exception as e:
+            raise AnalysisError('%s: unexpected construct (%s: %s)' % (fn.__name__, type(e).__name__, e))
+    wrapped.__name__ = fn.__name__
+    return rep.guard(wrapped)
 
-    # ---- R13.a -----------------------------------------------------------
+
+# ---- looking through single-assignment locals ------------------------------------------------------------------------
+def single_value(fi, name):
+    """Value expression of a local that has exactly one binding in fi, a plain ``name = value`` -- else None."""
+    if name in fi.params():
+        return None
+    vals = assigned_value(fi.node, name)
+    if len(vals) != 1:
+        return None
+    st, v, idx = vals[0]
+    if idx is not None or not isinstance(st, ast.Assign):
+        return None
+    return v
+
+
+def _bind_call(callee, call, drop_first):
+    """{parameter: argument expression} for a call without */**, defaults filled in -- None when it does not bind."""
+    if any(isinstance(a, ast.Starred) for a in call.args) or any(k.arg is None for k in call.keywords):
+        return None
+    a = callee.node.args
+    if a.vararg or a.kwarg:
+        return None
+    pos = [x.arg for x in a.posonlyargs + a.args]
+    if drop_first:
+        pos = pos[1:]
+    names = pos + [x.arg for x in a.kwonlyargs]
+    if len(call.args) > len(pos):
+        return None
+    env = dict(zip(pos, call.args))
+    for k in call.keywords:
+        if k.arg in env or k.arg not in names:
+            return None
+        env[k.arg] = k.value
+    dpos = [x.arg for x in a.posonlyargs + a.args]
+    defaults = dict(zip(dpos[len(dpos) - len(a.defaults):], a.defaults))
+    for x, d in zip(a.kwonlyargs, a.kw_defaults):
+        if d is not None:
+            defaults[x.arg] = d
+    for n in names:
+        if n not in env:
+            if n not in defaults:
+                return None
+            env[n] = defaults[n]
+    return env
+
+
+def resolve_callee(fi, call):
+    """(FuncInfo, drop_first) of a call to a plain function of the same module / a method of the own class, else None."""
+    f = call.func
+    if isinstance(f, ast.Name):
+        if f.id in fi.params() or assigned_value(fi.node, f.id):
+            return None
+        kind, m, obj = fi.mod.repo.resolve(fi.mod, f.id)
+        if kind == 'func' and m is not None and not m.external and not obj.node.decorator_list:
+            return obj, False
+    elif isinstance(f, ast.Attribute) and isinstance(f.value, ast.Name) and f.value.id == 'self' and fi.cls is not None and f.attr in fi.cls.methods:
+        m = fi.cls.methods[f.attr]
+        static = any(isinstance(d, ast.Name) and d.id == 'staticmethod' for d in m.node.decorator_list)
+        if all(isinstance(d, ast.Name) and d.id == 'staticmethod' for d in m.node.decorator_list):
+            return m, not static
+    return None
+
+
+def _body_sans_doc(fnode):
+    body = list(fnode.body)
+    if body and isinstance(body[0], ast.Expr) and isinstance(body[0].value, ast.Constant) and isinstance(body[0].value.value, str):
+        body = body[1:]
+    return body
+
+
+def call_as_expr(fi, call):
+    """The expression a call stands for when its callee is a one-line ``return <expr>`` function of the analysed module
+    (parameters replaced by the argument expressions; only for arguments that are names / attribute chains / constants,
+    so that no evaluation is duplicated or re-ordered) -- else None."""
+    rc = resolve_callee(fi, call)
+    if rc is None:
+        return None
+    callee, drop = rc
+    body = _body_sans_doc(callee.node)
+    if len(body) != 1 or not isinstance(body[0], ast.Return) or body[0].value is None:
+        return None
+    env = _bind_call(callee, call, drop)
+    if env is None:
+        return None
+    for v in env.values():
+        x = v
+        while isinstance(x, ast.Attribute):
+            x = x.value
+        if not isinstance(x, (ast.Name, ast.Constant)):
+            return None
+    if any(isinstance(n, (ast.Lambda, ast.ListComp, ast.SetComp, ast.DictComp, ast.GeneratorExp)) for n in ast.walk(body[0].value)):
+        return None
+    return _subst(body[0].value, env)
+
+
+def deref(fi, expr, depth=0):
+    """``expr`` with a Name that is a single-assignment local replaced by the value it names, and a call of a one-line
+    expression helper replaced by that expression (transitively)."""
+    while depth < 6:
+        if isinstance(expr, ast.Name):
+            v = single_value(fi, expr.id)
+        elif isinstance(expr, ast.Call):
+            v = call_as_expr(fi, expr)
+        else:
+            v = None
+        if v is None:
+            break
+        expr, depth = v, depth + 1
+    return expr
+
+
+def alias_closure(fi, names):
+    """names plus every local whose single binding is a plain copy ``x = <one of them>``."""
+    out = set(names)
+    changed = True
+    while changed:
+        changed = False
+        for s in stmts_of(fi.node):
+            if isinstance(s, ast.Assign) and isinstance(s.value, ast.Name) and s.value.id in out:
+                for t in s.targets:
+                    if isinstance(t, ast.Name) and t.id not in out and single_value(fi, t.id) is s.value:
+                        out.add(t.id)
+                        changed = True
+    return out
+
+
+def reversal_of(expr):
+    """The sequence ``expr`` enumerates backwards (``reversed(x)``, ``x[::-1]``, also under list()/tuple()/iter()), or None."""
+    while isinstance(expr, ast.Call) and isinstance(expr.func, ast.Name) and expr.func.id in ('list', 'tuple', 'iter') and \
+            len(expr.args) == 1 and not expr.keywords:
+        expr = expr.args[0]
+    if isinstance(expr, ast.Call) and isinstance(expr.func, ast.Name) and expr.func.id == 'reversed' and len(expr.args) == 1 and not expr.keywords:
+        return expr.args[0]
+    if isinstance(expr, ast.Subscript) and isinstance(expr.slice, ast.Slice):
+        sl = expr.slice
+        if sl.lower is None and sl.upper is None and isinstance(sl.step, ast.UnaryOp) and isinstance(sl.step.op, ast.USub) and \
+                isinstance(sl.step.operand, ast.Constant) and sl.step.operand.value == 1:
+            return expr.value
+        if sl.lower is None and sl.upper is None and isinstance(sl.step, ast.Constant) and sl.step.value == -1:
+            return expr.value
+    return None
+
+
+def wrap_stores(fi, within=None):
+    """Stores ``self._dispatch_wsgi = _safe_wrap_wsgi(a, b, c)`` in fi (optionally inside statement ``within``), the call
+    possibly named by a temporary first: [(store statement, call, temporaries' assignments)]."""
+    out = []
+    pool = stmts_of(fi.node) if within is None else [s for s in ast.walk(within) if isinstance(s, ast.stmt)]
+    for s in pool:
+        if isinstance(s, ast.Assign) and any(norm(t) == 'self._dispatch_wsgi' for t in s.targets):
+            v, temps = s.value, []
+            d = 0
+            while isinstance(v, ast.Name) and d < 4:
+                vals = [x for x in assigned_value(fi.node, v.id)]
+                if len(vals) != 1 or vals[0][2] is not None or v.id in fi.params():
+                    break
+                temps.append(vals[0][0])
+                v, d = vals[0][1], d + 1
+            out.append((s, v if isinstance(v, ast.Call) and call_name(v) == '_safe_wrap_wsgi' else None, temps))
+    return out
+
+
+def wrap_args(app, call):
+    """(source_name, source, inner) arguments of a ``_safe_wrap_wsgi`` call, positional or keyword -- None if not all three."""
+    ps = app.func('_safe_wrap_wsgi').params()
+    if call is None or len(ps) != 3 or len(call.args) + len(call.keywords) != 3:
+        return None
+    out = [argn(call, p, i) for i, p in enumerate(ps)]
+    return out if all(x is not None for x in out) else None
+
+
+# ---- R13.a -----------------------------------------------------------------------------------------------------------
+def check_delegation(rep, app):
+    repo = rep.repo
     dw = app.func('Application._dispatch_wsgi')
     cfg = cfg_of(dw)
+    if len(dw.params()) < 3:
+        raise AnalysisError('_dispatch_wsgi does not take (self, environ, start_response)')
     env, sr = dw.params()[1:3]
     rets = returns_of(dw)
     delegates = []
+    def source_kind(v):
+        """what a delegate callee stands for: the response dispatch() produced / the WSGI app of a caught RerouteWSGI"""
+        if isinstance(v, ast.Call) and norm(v.func) == 'self.dispatch' and len(v.args) == 1 and isinstance(v.args[0], ast.Name) and not v.keywords:
+            return 'response'
+        if isinstance(v, ast.Attribute) and v.attr == 'wsgi_app':
+            return 'reroute'
+        return None
+    dcalls = []
     for r in rets:
-        v = r.value
+        v = deref(dw, r.value) if r.value is not None else None      # ``result = response(environ, start_response); return result``
+        dcalls.append(v)
         ok = isinstance(v, ast.Call) and [norm(a) for a in v.args] == [env, sr] and not v.keywords
-        kind = None
+        kinds = set()
         if ok:
-            fn = norm(v.func)
-            if fn.endswith('.wsgi_app'):
-                kind = 'reroute'
+            callee = deref(dw, v.func)
+            if isinstance(callee, ast.Name) and callee.id not in dw.params():
+                # a local bound in several places (``response = self.dispatch(..)`` / ``except RerouteWSGI as e: response = e.wsgi_app``)
+                kinds = set(source_kind(x[1]) if x[2] is None else None for x in assigned_value(dw.node, callee.id))
             else:
-                kind = 'response'
-        delegates.append((r, kind))
+                kinds = {source_kind(callee)}
+        delegates.append((r, kinds))
         rep.check('R13.a', fkey(dw, r), ok, 'returns %s(%s, %s): the delegate gets the original environ and start_response' % (norm(v.func) if ok else '?', env, sr) if ok else
-                  '_dispatch_wsgi returns %s instead of a WSGI delegate call with (%s, %s)' % (short(v), env, sr), app, r)
+                  '_dispatch_wsgi returns %s instead of a WSGI delegate call with (%s, %s)' % (short(r.value), env, sr), app, r)
     falls = cfg.exit in cfg.reach([cfg.entry], avoid=set(cfg.nodes_of_all(rets)), normal_only=True)
     rep.check('R13.a', fkey(dw, 'no fall-through'), not falls and bool(rets), 'every normal path ends in a delegate return' if not falls and rets else
               '_dispatch_wsgi can return None', app, dw.node)
     # exactly one delegate: no other call mentions start_response
     other = [c for c in walk_body(dw.node) if isinstance(c, ast.Call) and sr in [norm(a) for a in list(c.args) + [k.value for k in c.keywords]]
-             and not any(c is r.value for r in rets)]
+             and not any(c is v for v in dcalls)]
     rep.check('R13.a', fkey(dw, 'start_response passed once'), not other, 'start_response is only ever handed to the single delegate' if not other else
               'start_response is also passed to %s' % [short(c) for c in other], app, dw.node)
     # parameters never re-bound / mutated
@@ -75,18 +270,13 @@ def run(rep):
     rep.check('R13.a', fkey(dw, 'environ untouched'), not rebinds and not effs, 'environ / start_response are neither re-bound nor mutated' if not rebinds and not effs else
               'environ or start_response is modified before delegation: %s' % ([short(x) for x in rebinds] + [short(e.node) for e in effs]), app, dw.node)
     # response is the dispatch result; reroute comes from the caught exception
-    resp_ret = [r for r, k in delegates if k == 'response']
-    ok = len(resp_ret) == 1
-    if ok:
-        rv = norm(resp_ret[0].value.func)
-        srcs = [s for s in stmts_of(dw.node) if isinstance(s, ast.Assign) and norm(s.targets[0]) == rv]
-        ok = len(srcs) == 1 and norm(srcs[0].value) == 'self.dispatch(request)'
+    ok = any('response' in k for r, k in delegates) and all(k and k <= {'response', 'reroute'} for r, k in delegates)
     rep.check('R13.a', fkey(dw, 'response is the dispatch result'), ok, 'the delegate is the response object dispatch() produced' if ok else
               'the called response is not the result of self.dispatch(request)', app, dw.node)
     call = app.func('Application.__call__')
     rs = returns_of(call)
-    ok = len(rs) == 1 and isinstance(rs[0].value, ast.Call) and norm(rs[0].value.func) == 'self._dispatch_wsgi' and \
-        [norm(a) for a in rs[0].value.args] == call.params()[1:3]
+    ok = len(rs) == 1 and isinstance(rs[0].value, ast.Call) and norm(deref(call, rs[0].value.func)) == 'self._dispatch_wsgi' and \
+        [norm(a) for a in rs[0].value.args] == call.params()[1:3] and not rs[0].value.keywords
     rep.check('R13.a', fkey(call), ok, '__call__ delegates to self._dispatch_wsgi(environ, start_response) (the wrapped stack)' if ok else
               '__call__ does not delegate to self._dispatch_wsgi with its own arguments', app, call.node)
     # nobody in the core calls start_response or writes environ -- with positive control
@@ -113,89 +303,451 @@ def run(rep):
               'start_response is called directly at %s' % [fi.key for _, fi, _ in calls], app)
     rep.check('R13.a', 'clastic::environ writers', not writes, 'no clastic function stores into a WSGI environ (0 found; control matched)' if not writes else
               'environ is written at %s' % [fi.key for _, fi, _ in writes], app)
-    rep.floor('R13.a', 9)
+    rep.floor('R13.a', 8)
 
-    # ---- R13.b -----------------------------------------------------------
+
+# ---- R13.b -----------------------------------------------------------------------------------------------------------
+def _wrap_loops(fi):
+    return [s for s in stmts_of(fi.node) if isinstance(s, (ast.For, ast.While)) and
+            any(isinstance(c, ast.Call) and call_name(c) == '_safe_wrap_wsgi' for c in ast.walk(s))]
+
+
+def find_wrap_loop(app, ai):
+    """The loop that applies the middlewares' wrappers: in __init__ itself, or in a method of the class that __init__
+    calls as ``self.m(...)``.  -> (function holding the loop, loop, statement of __init__ at which it runs,
+    {parameter of that function: argument expression in __init__})"""
+    loops = _wrap_loops(ai)
+    if loops:
+        return ai, loops, loops[0], {}
+    found = []
+    for c in walk_body(ai.node):
+        if isinstance(c, ast.Call) and isinstance(c.func, ast.Attribute) and isinstance(c.func.value, ast.Name) and c.func.value.id == 'self' \
+                and ai.cls is not None and c.func.attr in ai.cls.methods and c.func.attr != 'set_error_handler':
+            m = ai.cls.methods[c.func.attr]
+            ls = _wrap_loops(m)
+            if ls:
+                ps = m.params()[1:]
+                if any(isinstance(a, ast.Starred) for a in c.args) or any(k.arg is None for k in c.keywords):
+                    raise AnalysisError('wrapping helper %s is called with */** arguments' % m.qualname)
+                env = dict(zip(ps, c.args))
+                for k in c.keywords:
+                    env[k.arg] = k.value
+                found.append((m, ls, stmt_of(app, c), env))
+    if len(found) == 1:
+        return found[0]
+    if not found:
+        raise AnalysisError('no loop applying _safe_wrap_wsgi to the middlewares found in Application.__init__ or a method it calls')
+    raise AnalysisError('several methods called by Application.__init__ apply _safe_wrap_wsgi in a loop')
+
+
+def check_wrap_order(rep, app):
     ai = app.func('Application.__init__')
     acfg = cfg_of(ai)
-    loops = [s for s in stmts_of(ai.node) if isinstance(s, ast.For) and any(isinstance(c, ast.Call) and call_name(c) == '_safe_wrap_wsgi' for c in ast.walk(s))]
+    lf, loops, site, env = find_wrap_loop(app, ai)
+    if len(loops) == 1 and not isinstance(loops[0], ast.For):
+        raise AnalysisError('the middleware wrapping loop is a %s loop: its iteration order is not followed' % type(loops[0]).__name__.lower())
+
+    def resolve_src(e):
+        e = deref(lf, e)
+        if isinstance(e, ast.Name) and e.id in env:      # parameter of an extracted method: the caller's argument
+            e = deref(ai, env[e.id])
+        return e
     ok = len(loops) == 1
     if ok:
         lp = loops[0]
-        it = lp.iter
-        ok = isinstance(it, ast.Call) and call_name(it) == 'reversed' and isinstance(it.args[0], ast.Name)
-        lst = norm(it.args[0]) if ok else None
-        srcs = [s.value for s in stmts_of(ai.node) if isinstance(s, ast.Assign) and norm(s.targets[0]) == lst]
-        ok = ok and len(srcs) == 1 and isinstance(srcs[0], ast.Call) and call_name(srcs[0]) == '_get_all_middlewares' and norm(srcs[0].args[0]) == 'self.routes'
-        body = [b for b in lp.body if isinstance(b, ast.Assign)]
-        ok = ok and len(lp.body) == 1 and len(body) == 1 and norm(body[0].targets[0]) == 'self._dispatch_wsgi' and \
-            isinstance(body[0].value, ast.Call) and call_name(body[0].value) == '_safe_wrap_wsgi' and \
-            norm(body[0].value.args[1]) == norm(lp.target) and norm(body[0].value.args[2]) == 'self._dispatch_wsgi'
+        it = resolve_src(lp.iter)
+        inner = reversal_of(it)
+        if inner is None:
+            # some other arrangement of the collected middlewares is a verdict; an iterable of unknown origin is not
+            base = it
+            while True:
+                if isinstance(base, ast.Call) and isinstance(base.func, ast.Name) and base.func.id in ('list', 'tuple', 'iter', 'sorted', 'reversed') and base.args:
+                    base = resolve_src(base.args[0])
+                elif isinstance(base, ast.Subscript) and isinstance(base.slice, ast.Slice):
+                    base = resolve_src(base.value)
+                else:
+                    break
+            if not (isinstance(base, ast.Call) and call_name(base) == '_get_all_middlewares'):
+                raise AnalysisError('the middleware wrapping loop iterates %s: not derived from the collected middlewares in a way that is followed' % short(lp.iter))
+        ok = inner is not None
+        if ok:
+            src = resolve_src(inner)
+            ok = isinstance(src, ast.Call) and call_name(src) == '_get_all_middlewares' and len(src.args) + len(src.keywords) == 1 and \
+                norm(argn(src, app.func('_get_all_middlewares').params()[0], 0)) == 'self.routes'
+        ws = wrap_stores(lf, lp)
+        wa = wrap_args(app, ws[0][1]) if len(ws) == 1 else None
+        ok = ok and wa is not None and isinstance(lp.target, ast.Name) and norm(wa[1]) == lp.target.id and norm(wa[2]) == 'self._dispatch_wsgi'
+        if ok:
+            # the loop body is that store (and the temporaries naming its value), nothing that skips or repeats a middleware
+            allowed = set(id(x) for x in [ws[0][0]] + ws[0][2])
+            ok = all(id(b) in allowed for b in lp.body) and not lp.orelse
     rep.check('R13.b', fkey(ai, 'wrap loop'), ok,
-              'wrappers are applied innermost-first over reversed(all middlewares), each wrapping the current stack: the first middleware ends up outermost' if ok else
-              'Application.__init__ does not wrap self._dispatch_wsgi over reversed(_get_all_middlewares(self.routes))', app, loops[0] if loops else ai.node)
+              'wrappers are applied innermost-first over the reverse of all middlewares, each wrapping the current stack: the first middleware ends up outermost' if ok else
+              'Application.__init__ does not wrap self._dispatch_wsgi over reversed(_get_all_middlewares(self.routes))', app, loops[0] if lf is ai else site)
     seh = [stmt_of(app, c) for c in walk_body(ai.node) if isinstance(c, ast.Call) and norm(c.func) == 'self.set_error_handler']
-    ok = len(seh) == 1 and loops and acfg.must_pass(acfg.nodes_of(seh[0]), acfg.entry, acfg.nodes_of(loops[0])) and \
-        not (set(acfg.nodes_of(seh[0])) & acfg.reach(acfg.nodes_of(loops[0])))
+    ok = len(seh) == 1 and acfg.must_pass(acfg.nodes_of(seh[0]), acfg.entry, acfg.nodes_of(site)) and \
+        not (set(acfg.nodes_of(seh[0])) & acfg.reach(acfg.nodes_of(site)))
     rep.check('R13.b', fkey(ai, 'error handler innermost'), ok, 'the error handler\'s wrapper is applied before (inside) all middleware wrappers' if ok else
               'set_error_handler does not run before the middleware wrapping loop', app, seh[0] if seh else ai.node)
-    routes_done = [s for s in stmts_of(ai.node) if isinstance(s, ast.For) and any(isinstance(c, ast.Call) and norm(c.func) == 'self.add' for c in ast.walk(s))]
-    ok = bool(routes_done) and loops and acfg.must_pass(acfg.nodes_of_all(routes_done), acfg.entry, acfg.nodes_of(loops[0]))
+    adds = [stmt_of(app, c) for c in walk_body(ai.node) if isinstance(c, ast.Call) and norm(c.func) == 'self.add']
+    site_nodes = set(acfg.nodes_of(site))
+    after = acfg.reach(list(site_nodes), include_src=False)
+    ok = bool(adds) and all(acfg.nodes_of(a) and (site_nodes & acfg.reach(acfg.nodes_of(a))) and not (set(acfg.nodes_of(a)) & after) for a in adds)
     rep.check('R13.b', fkey(ai, 'wrappers after routes'), ok, 'wrappers are collected after the constructor\'s routes are bound' if ok else
               'the wrapping loop does not follow the binding of routes', app, ai.node)
     sh = app.func('Application.set_error_handler')
-    w = [s for s in stmts_of(sh.node) if isinstance(s, ast.Assign) and norm(s.targets[0]) == 'self._dispatch_wsgi']
-    ok = len(w) == 1 and isinstance(w[0].value, ast.Call) and call_name(w[0].value) == '_safe_wrap_wsgi' and norm(w[0].value.args[2]) == 'self._dispatch_wsgi'
+    w = wrap_stores(sh)
+    wa = wrap_args(app, w[0][1]) if len(w) == 1 else None
+    ok = wa is not None and norm(wa[2]) == 'self._dispatch_wsgi'
     rep.check('R13.b', fkey(sh), ok, 'set_error_handler wraps the current stack with the handler\'s wsgi_wrapper' if ok else
               'set_error_handler does not wrap self._dispatch_wsgi', app, sh.node)
+
+
+def _comp_of(fi, expr):
+    e = deref(fi, expr)
+    return e if isinstance(e, (ast.GeneratorExp, ast.ListComp)) else None
+
+
+def iteration_levels(fi, stmt):
+    """The nest of iterations a statement runs under, outermost first, as [(target text, iterable expr)]: enclosing ``for``
+    loops; a loop over ``chain.from_iterable(<comprehension>)`` / ``chain(*<comprehension>)`` or over a comprehension with
+    several ``for`` clauses contributes the comprehension's own clauses.  None when a level cannot be described."""
+    mod = fi.mod
+    loops = []
+    cur = mod.parents.get(stmt)
+    while cur is not None and cur is not fi.node:
+        if isinstance(cur, ast.While):
+            return None
+        if isinstance(cur, ast.For):
+            loops.append(cur)
+        cur = mod.parents.get(cur)
+    loops.reverse()
+    levels = []
+    for lp in loops:
+        if not isinstance(lp.target, ast.Name):
+            return None
+        it = deref(fi, lp.iter)
+        flat = None
+        if isinstance(it, ast.Call) and norm(it.func) in ('itertools.chain.from_iterable', 'chain.from_iterable') and len(it.args) == 1 and not it.keywords:
+            flat = _comp_of(fi, it.args[0])
+            if flat is None:
+                return None
+        elif isinstance(it, ast.Call) and norm(it.func) in ('itertools.chain', 'chain') and len(it.args) == 1 and isinstance(it.args[0], ast.Starred):
+            flat = _comp_of(fi, it.args[0].value)
+            if flat is None:
+                return None
+        if flat is not None:
+            if any(g.ifs or g.is_async or not isinstance(g.target, ast.Name) for g in flat.generators):
+                return None
+            for g in flat.generators:
+                levels.append((g.target.id, g.iter))
+            levels.append((lp.target.id, flat.elt))
+            continue
+        comp = it if isinstance(it, (ast.GeneratorExp, ast.ListComp)) else None
+        if comp is not None:
+            # for x in (E for a in A for b in B): x is E under the clauses
+            if any(g.ifs or g.is_async or not isinstance(g.target, ast.Name) for g in comp.generators):
+                return None
+            for g in comp.generators:
+                levels.append((g.target.id, g.iter))
+            if isinstance(comp.elt, ast.Name) and comp.elt.id == comp.generators[-1].target.id:
+                # the element is the innermost clause variable: the loop variable is that variable
+                t, i = levels.pop()
+                levels.append((lp.target.id, i))
+            else:
+                return None
+            continue
+        levels.append((lp.target.id, it))
+    return levels
+
+
+def check_collect_middlewares(rep, app):
     gm = app.func('_get_all_middlewares')
-    outer = [s for s in stmts_of(gm.node) if isinstance(s, ast.For) and s in gm.node.body]
-    ok = len(outer) == 1
+    ps = gm.params()
+    rets = returns_of(gm)
+    ok = len(rets) == 1 and isinstance(rets[0].value, ast.Name) and len(ps) == 1
     if ok:
-        inner = [s for s in outer[0].body if isinstance(s, ast.For)]
-        ok = len(inner) == 1 and norm(inner[0].iter) == '%s.middlewares' % norm(outer[0].target)
-        rv = norm(returns_of(gm)[0].value) if returns_of(gm) else None
-        apps = [c for c in ast.walk(outer[0]) if isinstance(c, ast.Call) and norm(c.func) == '%s.append' % rv]
-        ok = ok and len(apps) == 1 and norm(apps[0].args[0]) == norm(inner[0].target) and \
-            has_cond(conds(gm, apps[0]), lambda t: norm(t) == '%s not in %s' % (norm(inner[0].target), rv), True)
+        rv = rets[0].value.id
+        init = single_value(gm, rv)
+        ok = isinstance(init, ast.List) and not init.elts
         muts = [e for e in effects.effects_in(gm.node) if e.root == rv]
-        ok = ok and len(muts) == 1
+        apps = [e.node for e in muts if e.kind == 'mutcall' and e.method == 'append' and norm(e.target) == rv]
+        ok = ok and len(muts) == 1 and len(apps) == 1 and len(apps[0].args) == 1 and isinstance(apps[0].args[0], ast.Name) and not apps[0].keywords
+        if ok:
+            el = apps[0].args[0].id
+            st = stmt_of(app, apps[0])
+            levels = iteration_levels(gm, st)
+            if levels is None:
+                raise AnalysisError('_get_all_middlewares: the iteration around %s is not a nest of for loops / chain.from_iterable / comprehension clauses' % short(st))
+            ok = len(levels) == 2 and levels[1][0] == el and norm(levels[1][1]) == '%s.middlewares' % levels[0][0]
+            if ok:
+                outer = levels[0][1]
+                base = reversal_of(outer)
+                ok = norm(base if base is not None else outer) == ps[0]
+            cs = conds(gm, st)
+            ok = ok and (has_cond(cs, lambda t: norm(t) == '%s not in %s' % (el, rv), True) or
+                         has_cond(cs, lambda t: norm(t) == '%s in %s' % (el, rv), False))
     rep.check('R13.b', fkey(gm), ok, 'each route\'s middlewares are walked in order; a type already collected is skipped (first occurrence kept)' if ok else
               '_get_all_middlewares no longer keeps list order with first-occurrence de-duplication', app, gm.node)
-    from .chain import check_middleware_identity
-    check_middleware_identity(rep, 'R13.b')
+
+
+def _is_none(cs, name):
+    """the path conditions say ``name is None``"""
+    for t, p in cs:
+        if isinstance(t, ast.Compare) and len(t.ops) == 1 and norm(t.left) == name and isinstance(t.comparators[0], ast.Constant) and \
+                t.comparators[0].value is None:
+            if (isinstance(t.ops[0], ast.Is) and p is True) or (isinstance(t.ops[0], ast.IsNot) and p is False):
+                return True
+    return False
+
+
+def check_safe_wrap(rep, app):
     sw = app.func('_safe_wrap_wsgi')
-    scfg = cfg_of(sw)
     ps = sw.params()
-    r_inner = [r for r in returns_of(sw) if norm(r.value) == ps[2]]
-    ok = bool(r_inner) and all(has_cond(conds(sw, r), lambda t: norm(t) in ('wsgi_wrapper is None',), True) for r in r_inner)
+    if len(ps) != 3:
+        raise AnalysisError('_safe_wrap_wsgi does not take (source_name, source, inner)')
+    # the local naming the wrapper: <source>.wsgi_wrapper with default None
+    wnames = []
+    for s in stmts_of(sw.node):
+        if isinstance(s, ast.Assign) and len(s.targets) == 1 and isinstance(s.targets[0], ast.Name):
+            v = s.value
+            if isinstance(v, ast.Call) and call_name(v) == 'getattr' and len(v.args) == 3 and norm(v.args[0]) == ps[1] and \
+                    isinstance(v.args[1], ast.Constant) and v.args[1].value == 'wsgi_wrapper' and isinstance(v.args[2], ast.Constant) and v.args[2].value is None:
+                wnames.append(s.targets[0].id)
+    wnames = [w for w in wnames if single_value(sw, w) is not None]
+    if len(wnames) != 1:
+        raise AnalysisError('_safe_wrap_wsgi: no single local holding getattr(%s, \'wsgi_wrapper\', None) found' % ps[1])
+    W = wnames[0]
+    r_inner = [r for r in returns_of(sw) if r.value is not None and norm(r.value) == ps[2]]
+    ok = bool(r_inner) and all(_is_none(conds(sw, r), W) for r in r_inner)
     rep.check('R13.b', fkey(sw, 'no wrapper'), ok, 'without a wsgi_wrapper the inner callable is returned untouched' if ok else
               '_safe_wrap_wsgi does not return the inner callable untouched when there is no wrapper', app, sw.node)
-    wr = [s for s in stmts_of(sw.node) if isinstance(s, ast.Assign) and isinstance(s.value, ast.Call) and norm(s.value.func) == 'wsgi_wrapper']
-    ok = len(wr) == 1 and [norm(a) for a in wr[0].value.args] == [ps[2]] and any(norm(r.value) == norm(wr[0].targets[0]) for r in returns_of(sw))
-    chk = [c for c in walk_body(sw.node) if isinstance(c, ast.Call) and call_name(c) == 'check_valid_wsgi']
-    ok = ok and len(chk) == 1 and norm(chk[0].args[0]) == norm(wr[0].targets[0])
+    wr = [s for s in stmts_of(sw.node) if isinstance(s, ast.Assign) and isinstance(s.value, ast.Call) and norm(s.value.func) == W and
+          len(s.targets) == 1 and isinstance(s.targets[0], ast.Name)]
+    ok = len(wr) == 1 and [norm(a) for a in wr[0].value.args] == [ps[2]] and not wr[0].value.keywords
+    if ok:
+        res = alias_closure(sw, {wr[0].targets[0].id})
+        others = [r for r in returns_of(sw) if r not in r_inner]
+        ok = bool(others) and all(r.value is not None and norm(r.value) in res for r in others) and len(assigned_value(sw.node, wr[0].targets[0].id)) == 1
+        chk = [c for c in walk_body(sw.node) if isinstance(c, ast.Call) and call_name(c) == 'check_valid_wsgi']
+        ok = ok and len(chk) == 1 and len(chk[0].args) + len(chk[0].keywords) == 1 and norm(argn(chk[0], app.func('check_valid_wsgi').params()[0], 0)) in res
+        if ok:
+            scfg = cfg_of(sw)
+            cst = stmt_of(app, chk[0])
+            ok = all(scfg.must_pass(scfg.nodes_of(cst), scfg.entry, scfg.nodes_of(r), normal_only=True) for r in others)
     rep.check('R13.b', fkey(sw, 'wrap and validate'), ok, 'the wrapper is called with the inner callable; the result is validated and returned' if ok else
               '_safe_wrap_wsgi does not return the validated wsgi_wrapper(inner)', app, sw.node)
-    cv = app.func('check_valid_wsgi')
-    txt = norm(cv.node)
-    ok = "!= 'environ'" in txt and "!= 'start_response'" in txt and any(raise_type(r) == 'TypeError' for r in raises_of(cv))
-    rep.check('R13.b', fkey(cv), ok, 'a wrapped callable must take (environ, start_response)' if ok else 'check_valid_wsgi no longer checks the parameter names', app, cv.node)
-    rep.floor('R13.b', 7)
 
-    # ---- R13.c -----------------------------------------------------------
+
+# -- check_valid_wsgi: which paths accept? -----------------------------------------------------------------------------
+class _Sub(ast.NodeTransformer):
+    def __init__(self, env):
+        self.env = env
+
+    def visit_Name(self, node):
+        if isinstance(node.ctx, ast.Load) and node.id in self.env:
+            return copy.deepcopy(self.env[node.id])
+        return node
+
+    def visit_Lambda(self, node):
+        return node
+
+
+def _subst(expr, env):
+    return _Sub(env).visit(copy.deepcopy(expr)) if env else expr
+
+
+def _truth(t):
+    """Truth value of a test that is decided syntactically (constants, and/or/not over them), else None."""
+    if isinstance(t, ast.Constant):
+        return bool(t.value)
+    if isinstance(t, ast.UnaryOp) and isinstance(t.op, ast.Not):
+        v = _truth(t.operand)
+        return None if v is None else not v
+    if isinstance(t, ast.BoolOp):
+        vs = [_truth(v) for v in t.values]
+        if isinstance(t.op, ast.And):
+            if any(v is False for v in vs):
+                return False
+            return True if all(v is True for v in vs) else None
+        if any(v is True for v in vs):
+            return True
+        return False if all(v is False for v in vs) else None
+    return None
+
+
+def exit_paths(fi, env0=None, limit=400, depth=0):
+    """Paths through a function without loops / try / with, with the values of its locals substituted into the tests:
+    [(how the path ends: 'return' | 'raise', final statement or None, [(test, polarity)], returned value expr)].  A test
+    that is a call (or ``not`` a call) of another such function of the module forks over *its* paths, so a decision
+    delegated to a predicate helper is followed.  Raises AnalysisError for any other shape."""
+    out = []
+
+    def branch(t, env, cs, then, other, k_then, k_other):
+        """fork on test t (already substituted)"""
+        neg = False
+        c = t
+        while isinstance(c, ast.UnaryOp) and isinstance(c.op, ast.Not):
+            c, neg = c.operand, not neg
+        sub = None
+        if isinstance(c, ast.Call) and depth < 2:
+            rc = resolve_callee(fi, c)
+            if rc is not None:
+                benv = _bind_call(rc[0], c, rc[1])
+                if benv is not None:
+                    try:
+                        sub = exit_paths(rc[0], benv, limit, depth + 1)
+                    except AnalysisError:
+                        sub = None
+        if sub is None:
+            tv = _truth(t)
+            if tv is not False:
+                run(then, dict(env), cs + [(t, True)], k_then)
+            if tv is not True:
+                run(other, dict(env), cs + [(t, False)], k_other)
+            return
+        for kind, st_, ccs, val in sub:
+            if kind == 'raise':
+                out.append(('raise', st_, cs + ccs, None))
+                continue
+            v = val if val is not None else ast.Constant(value=None)
+            if neg:
+                v = ast.UnaryOp(op=ast.Not(), operand=v)
+            tv = _truth(v)
+            if tv is not False:
+                run(then, dict(env), cs + ccs + [(v, True)], k_then)
+            if tv is not True:
+                run(other, dict(env), cs + ccs + [(v, False)], k_other)
+
+    def run(stmts, env, cs, k):
+        """k: continuation (list of statement lists)"""
+        if len(out) > limit:
+            raise AnalysisError('%s: too many paths' % fi.qualname)
+        if not stmts:
+            if k:
+                return run(k[0], env, cs, k[1:])
+            out.append(('return', None, cs, None))
+            return
+        s, rest = stmts[0], stmts[1:]
+        if isinstance(s, ast.Return):
+            out.append(('return', s, cs, _subst(s.value, env) if s.value is not None else None))
+        elif isinstance(s, ast.Raise):
+            out.append(('raise', s, cs, None))
+        elif isinstance(s, ast.If):
+            t = _subst(s.test, env)
+            branch(t, env, cs, list(s.body), list(s.orelse), [rest] + k, [rest] + k)
+        elif isinstance(s, ast.Assign) and len(s.targets) == 1:
+            t = s.targets[0]
+            v = _subst(s.value, env)
+            env = dict(env)
+            if isinstance(t, ast.Name):
+                env[t.id] = v
+            elif isinstance(t, (ast.Tuple, ast.List)) and all(isinstance(e, ast.Name) for e in t.elts):
+                for i, e in enumerate(t.elts):
+                    if isinstance(v, (ast.Tuple, ast.List)) and len(v.elts) == len(t.elts):
+                        env[e.id] = v.elts[i]
+                    else:
+                        env[e.id] = ast.Subscript(value=copy.deepcopy(v), slice=ast.Constant(value=i), ctx=ast.Load())
+            else:
+                for n in ast.walk(t):
+                    if isinstance(n, ast.Name) and isinstance(n.ctx, ast.Store):
+                        env.pop(n.id, None)
+            run(rest, env, cs, k)
+        elif isinstance(s, (ast.Expr, ast.Pass, ast.Assert)):
+            run(rest, env, cs, k)
+        else:
+            raise AnalysisError('%s: cannot enumerate paths through %s' % (fi.qualname, type(s).__name__))
+    run(_body_sans_doc(fi.node), dict(env0 or {}), [], [])
+    return out
+
+
+def _names_index(expr, param):
+    """``get_arg_names(<param>)[:2][i]`` / ``get_arg_names(<param>)[i]`` -> i, else None"""
+    if not (isinstance(expr, ast.Subscript) and isinstance(expr.slice, ast.Constant) and isinstance(expr.slice.value, int)):
+        return None
+    i = expr.slice.value
+    base = expr.value
+    if isinstance(base, ast.Subscript) and isinstance(base.slice, ast.Slice) and base.slice.lower is None and base.slice.step is None and \
+            isinstance(base.slice.upper, ast.Constant) and isinstance(base.slice.upper.value, int) and 0 <= i < base.slice.upper.value:
+        base = base.value
+    if isinstance(base, ast.Call) and call_tail(base) == 'get_arg_names' and len(base.args) == 1 and norm(base.args[0]) == param and i >= 0:
+        return i
+    return None
+
+
+def _leading_two(expr, param):
+    """``get_arg_names(<param>)[:2]`` (also under list()/tuple())"""
+    while isinstance(expr, ast.Call) and isinstance(expr.func, ast.Name) and expr.func.id in ('list', 'tuple') and len(expr.args) == 1:
+        expr = expr.args[0]
+    return isinstance(expr, ast.Subscript) and isinstance(expr.slice, ast.Slice) and expr.slice.lower is None and expr.slice.step is None and \
+        isinstance(expr.slice.upper, ast.Constant) and expr.slice.upper.value == 2 and isinstance(expr.value, ast.Call) and \
+        call_tail(expr.value) == 'get_arg_names' and len(expr.value.args) == 1 and norm(expr.value.args[0]) == param
+
+
+def accepted_names(cs, param):
+    """{index: parameter name} the path conditions pin down for the leading argument names of ``param``."""
+    out = {}
+    for t, p in expand_conds(cs):
+        if not (isinstance(t, ast.Compare) and len(t.ops) == 1):
+            continue
+        eq = (isinstance(t.ops[0], ast.Eq) and p is True) or (isinstance(t.ops[0], ast.NotEq) and p is False)
+        if not eq:
+            continue
+        for a, b in ((t.left, t.comparators[0]), (t.comparators[0], t.left)):
+            if isinstance(b, ast.Constant) and isinstance(b.value, str):
+                i = _names_index(a, param)
+                if i is not None:
+                    out[i] = b.value
+            if isinstance(b, (ast.List, ast.Tuple)) and all(isinstance(e, ast.Constant) for e in b.elts) and _leading_two(a, param):
+                for i, e in enumerate(b.elts):
+                    out[i] = e.value
+    return out
+
+
+def check_valid_wsgi_rule(rep, app):
+    cv = app.func('check_valid_wsgi')
+    ps = cv.params()
+    if len(ps) != 1:
+        raise AnalysisError('check_valid_wsgi does not take exactly one parameter')
+    paths = exit_paths(cv)
+    accepting = [p for p in paths if p[0] == 'return']
+    bad = [p for p in accepting if [accepted_names(p[2], ps[0]).get(i) for i in (0, 1)] != ['environ', 'start_response']]
+    for p in bad:
+        # a decision delegated to a function of the analysed tree that could not be followed is "cannot tell", not "wrong"
+        for t, _ in p[2]:
+            for c in ast.walk(t):
+                if isinstance(c, ast.Call) and call_tail(c) != 'get_arg_names' and resolve_callee(cv, c) is not None:
+                    raise AnalysisError('check_valid_wsgi: the accepting path depends on %s, which cannot be followed' % short(c))
+    ok = bool(accepting) and not bad and any(raise_type(r) == 'TypeError' for r in raises_of(cv))
+    rep.check('R13.b', fkey(cv), ok, 'a wrapped callable must take (environ, start_response): every path that does not raise has compared its first two '
+              'parameter names with exactly these' if ok else 'check_valid_wsgi no longer checks the parameter names' +
+              (' (accepts under %s)' % [('' if p else 'not ') + short(t, 60) for t, p in bad[0][2]] if bad else ''), app, cv.node)
+
+
+# ---- R13.c -----------------------------------------------------------------------------------------------------------
+def check_file_handover(rep, st):
     bfr = st.func('build_file_response')
-    opens = [s for s in stmts_of(bfr.node) if isinstance(s, ast.Assign) and isinstance(s.value, ast.Call) and call_name(s.value) == 'open']
-    ok = len(opens) == 1
+    opens = [s for s in stmts_of(bfr.node) if isinstance(s, ast.Assign) and isinstance(s.value, ast.Call) and call_name(s.value) == 'open'
+             and len(s.targets) == 1 and isinstance(s.targets[0], ast.Name)]
+    all_opens = [c for c in walk_body(bfr.node) if isinstance(c, ast.Call) and call_name(c) == 'open']
+    if not all_opens:
+        raise AnalysisError('build_file_response: no open(...) call found (the file is opened elsewhere)')
+    ok = len(opens) == 1 and len(all_opens) == 1
     if ok:
-        fo = norm(opens[0].targets[0])
-        hand = [s for s in stmts_of(bfr.node) if isinstance(s, ast.Assign) and norm(s.targets[0]).endswith('.response') and
-                isinstance(s.value, ast.Call) and norm(s.value.func) == 'file_wrapper' and norm(s.value.args[0]) == fo]
+        fo = alias_closure(bfr, {opens[0].targets[0].id})
+        if 'file_wrapper' not in bfr.params():
+            raise AnalysisError('build_file_response has no file_wrapper parameter')
+        hand = [s for s in stmts_of(bfr.node) if isinstance(s, ast.Assign) and len(s.targets) == 1 and isinstance(s.targets[0], ast.Attribute) and
+                s.targets[0].attr == 'response' and isinstance(s.value, ast.Call) and norm(s.value.func) == 'file_wrapper' and
+                len(s.value.args) >= 1 and norm(s.value.args[0]) in fo]
         bcfg = cfg_of(bfr)
         final = [r for r in returns_of(bfr) if set(bcfg.nodes_of(r)) & bcfg.reach(bcfg.nodes_of(opens[0]), normal_only=True)]
-        ok = len(hand) == 1 and final and all(bcfg.must_pass(bcfg.nodes_of(hand[0]), bcfg.nodes_of(opens[0]), bcfg.nodes_of(r), normal_only=True) for r in final)
-        mode = opens[0].value.args[1] if len(opens[0].value.args) > 1 else kwarg(opens[0].value, 'mode')
-        ok = ok and isinstance(mode, ast.Constant) and 'b' in mode.value
+        ok = len(hand) == 1 and bool(final) and all(bcfg.must_pass(bcfg.nodes_of(hand[0]), bcfg.nodes_of(opens[0]), bcfg.nodes_of(r), normal_only=True) for r in final)
+        # the response that gets the file is the one returned
+        ok = ok and all(r.value is not None and norm(r.value) == norm(hand[0].targets[0].value) for r in final)
+        mode = argn(opens[0].value, 'mode', 1)
+        mode = st.repo.try_fold(mode, st) if mode is not None and not isinstance(mode, ast.Constant) else (mode.value if mode is not None else None)
+        ok = ok and isinstance(mode, str) and 'b' in mode
     rep.check('R13.c', fkey(bfr, 'file handed to response'), ok,
               'the file opened (binary) for serving is wrapped by file_wrapper and becomes resp.response on every success path (closed by the response\'s close())' if ok else
               'the opened file is not handed to the response through file_wrapper on every success path', st, opens[0] if opens else bfr.node)
@@ -204,10 +756,13 @@ def run(rep):
     for fi_ in st.functions.values():
         if fi_ is bfr:
             continue
-        resp_vars = set(norm(s.targets[0]) for s in stmts_of(fi_.node) if isinstance(s, ast.Assign) and isinstance(s.value, ast.Call)
-                        and call_name(s.value) in local_aliases(fi_, 'build_file_response'))
-        if not resp_vars:
+        names = local_aliases(fi_, 'build_file_response')
+        bcalls = [c for c in walk_body(fi_.node) if isinstance(c, ast.Call) and call_name(c) in names]
+        if not bcalls:
             continue
+        resp_vars = set(norm(s.targets[0]) for s in stmts_of(fi_.node) if isinstance(s, ast.Assign) and isinstance(s.value, ast.Call)
+                        and call_name(s.value) in names)
+        resp_vars = alias_closure(fi_, resp_vars)
         drops = [e for e in effects.effects_in(fi_.node) if e.root in resp_vars and (e.chain or [None, None])[1:2] in (['response'], ['data'])] + \
             [c for c in walk_body(fi_.node) if isinstance(c, ast.Call) and call_tail(c) == 'set_data' and norm(c.func.value) in resp_vars]
         rep.check('R13.c', fkey(fi_, 'body not replaced'), not drops,
@@ -216,16 +771,78 @@ def run(rep):
                   'close() cannot release it' % (fi_.qualname, [short(getattr(d, 'node', d)) for d in drops]), st,
                   getattr(drops[0], 'node', drops[0]) if drops else fi_.node)
         rets_ = returns_of(fi_)
-        ok = bool(rets_) and all(norm(r.value) in resp_vars for r in rets_)
+        ok = bool(rets_) and all(r.value is not None and (norm(r.value) in resp_vars or any(r.value is c for c in bcalls)) for r in rets_)
         rep.check('R13.c', fkey(fi_, 'returns the file response'), ok, 'the response built for the file is what is returned' if ok else
                   '%s does not return the response that owns the file' % fi_.qualname, st, fi_.node)
     gfr = st.func('StaticApplication.get_file_response')
-    fw = [kwarg(c, 'file_wrapper') for c in walk_body(gfr.node) if isinstance(c, ast.Call) and call_name(c) in local_aliases(gfr, 'build_file_response')]
-    ok = bool(fw) and all(v is not None and "request.environ.get('wsgi.file_wrapper'" in norm(v) for v in fw)
+    pos = bfr.params().index('file_wrapper') if 'file_wrapper' in bfr.params() else None
+    bcalls = [c for c in walk_body(gfr.node) if isinstance(c, ast.Call) and call_name(c) in local_aliases(gfr, 'build_file_response')]
+    if not bcalls:
+        raise AnalysisError('StaticApplication.get_file_response does not call build_file_response')
+    fw = [argn(c, 'file_wrapper', pos) for c in bcalls]
+    fw = [deref(gfr, v) if v is not None else None for v in fw]
+
+    def from_environ(v):
+        if not (isinstance(v, ast.Call) and call_tail(v) == 'get' and isinstance(v.func, ast.Attribute) and v.args and
+                isinstance(v.args[0], ast.Constant) and v.args[0].value == 'wsgi.file_wrapper'):
+            return False
+        recv = deref(gfr, v.func.value)              # ``environ = request.environ``
+        return isinstance(recv, ast.Attribute) and recv.attr == 'environ'
+    ok = all(v is not None and from_environ(v) for v in fw)
     rep.check('R13.c', fkey(gfr, 'wsgi.file_wrapper'), ok, 'the server\'s wsgi.file_wrapper is used when offered' if ok else
               'wsgi.file_wrapper from the environ is not honoured', st, gfr.node)
     sfi = st.func('StaticFileRoute.__init__')
-    probes = [c for c in walk_body(sfi.node) if isinstance(c, ast.Call) and call_name(c) == 'open']
-    ok = all(isinstance(st.parents.get(st.parents.get(p)), ast.Call) and call_tail(st.parents.get(st.parents.get(p))) == 'close' for p in probes) and probes
+    # the probe may sit in __init__ or in a function of the module __init__ calls
+    holders = [sfi]
+    for c in walk_body(sfi.node):
+        if isinstance(c, ast.Call):
+            rc = resolve_callee(sfi, c)
+            if rc is not None and rc[0] not in holders and rc[0].mod is st:
+                holders.append(rc[0])
+    probes = [(h, c) for h in holders for c in walk_body(h.node) if isinstance(c, ast.Call) and call_name(c) == 'open']
+
+    def closed(h, p):
+        hcfg = cfg_of(h)
+        par = st.parents.get(p)
+        gp = st.parents.get(par)
+        if isinstance(par, ast.Attribute) and par.attr == 'close' and isinstance(gp, ast.Call) and gp.func is par:
+            return True                       # open(...).close()
+        if isinstance(par, ast.withitem) and par.context_expr is p:
+            return True                       # with open(...): the context manager closes it
+        if isinstance(par, ast.Assign) and len(par.targets) == 1 and isinstance(par.targets[0], ast.Name) and par.value is p:
+            nm = par.targets[0].id
+            if len(assigned_value(h.node, nm)) != 1:
+                return False
+            cl = [stmt_of(st, c) for c in walk_body(h.node) if isinstance(c, ast.Call) and isinstance(c.func, ast.Attribute) and
+                  c.func.attr == 'close' and norm(c.func.value) == nm]
+            return bool(cl) and hcfg.must_pass(hcfg.nodes_of_all(cl), hcfg.nodes_of(par), hcfg.exit, normal_only=True)
+        return False
+    if not probes:
+        raise AnalysisError('StaticFileRoute.__init__: no probe open(...) found in it or in the functions of the module it calls')
+    ok = all(closed(h, p) for h, p in probes)
     rep.check('R13.c', fkey(sfi, 'probe closed'), bool(ok), 'the construction-time probe is closed in the same statement' if ok else
               'StaticFileRoute.__init__ leaves its probe file open', st, sfi.node)
+
+
+def run(rep):
+    repo = rep.repo
+    app = repo.mod(APP)
+    st = repo.mod(STATIC)
+    rep.decide('R13.a exactly one WSGI delegate per path with untouched (environ, start_response); R13.b wrapper order; '
+               'R13.c opened files handed to the response')
+    rep.decline('status-line / header validity, close() semantics, bytes-ness of bodies: inside werkzeug')
+    rep.assume('werkzeug BaseResponse.__call__ calls start_response exactly once before yielding body bytes and omits the body for HEAD')
+    rep.rule('R13.a', 'CFG: every path of _dispatch_wsgi ends in one delegate call with the original parameters')
+    rep.rule('R13.b', 'sequence order of WSGI wrapping')
+    rep.rule('R13.c', 'open / hand-over pairing')
+
+    _group(rep, check_delegation, rep, app)
+    _group(rep, check_wrap_order, rep, app)
+    _group(rep, check_collect_middlewares, rep, app)
+    from .chain import check_middleware_identity
+    _group(rep, check_middleware_identity, rep, 'R13.b')
+    _group(rep, check_safe_wrap, rep, app)
+    _group(rep, check_valid_wsgi_rule, rep, app)
+    if not rep.gaps:
+        rep.floor('R13.b', 7)
+    _group(rep, check_file_handover, rep, st)
